@@ -34,6 +34,10 @@ def generate(rng, tier):
         k = max((len(d["script"]) for d in p["defs"].values() if d["kind"] != "nest"), default=2)
         p["limit"] = p["tock"] * rng.choice([k - 2, k - 1, k, k - 1, k - 1]) or p["tock"]
         out.append(sc.add_reruns(rng, p) if rng.random() < 0.5 else p)
+    # outside the Coq model (decided by the do()/ado() comparison alone): extend()/remove() issued from a doer's
+    # enter context while the Doist is still entering its doers, and doers whose own exit contexts raise
+    out += sc.gen_enter_effects(rng, 40 * n)
+    out += sc.gen_hookraise(rng, 30 * n)
     return out
 
 
@@ -63,6 +67,8 @@ def oracle(case, obs):
 
 
 def to_coq(case, obs):
+    if sc.outside_model(case):
+        return None
     a = copy.deepcopy(case); a["mode"] = "do"
     b = copy.deepcopy(case); b["mode"] = "ado"
     return f"({sc.to_coq(a, obs['do'])}, {sc.to_coq(b, obs['ado'])})"
